@@ -27,7 +27,7 @@ Block == /\ lvl = 1 /\ lvl' = 2 /\ UNCHANGED cs
          /\ \E k \in 0..((4096 \div BS) - 1) :
               LET b == v * 4096 + BS * k IN
               /\ ~IsSurrogate(b)
-              /\ (((b \div BS) % Stride = 0) \/ NearBound(b))
+              /\ (IF (b \div BS) % Stride = 0 THEN TRUE ELSE NearBound(b))   \* (a disjunction would yield the successor twice)
               /\ v' = b
 SeqStep == /\ lvl \in {0, 3} /\ Len(cs) < MaxSeq /\ lvl' = 3 /\ UNCHANGED v
            /\ \E c \in Bound : cs' = Append(cs, c)
